@@ -89,7 +89,13 @@ func VerifErrDecimal() {
 		return
 	}
 	_, res, err := verifApply(op, c, &dref, &x, &y, aux)
-	verifAssert(verifSameObservable(&d, &dref), tag+".same_value")
+	if err != nil && res == 0 {
+		// an error that carries no condition (zero precision, exponent gap): no value is
+		// delivered by the Context method, nothing to compare
+		verifCover("ed.flagless_error")
+	} else {
+		verifAssert(verifSameObservable(&d, &dref), tag+".same_value")
+	}
 	verifAssert(ed.Flags == flags0|res, tag+".accumulates")
 	verifAssert(verifImplies(err != nil, ed.Err() != nil), tag+".err_kept")
 	verifCover("ed.performed")
